@@ -447,6 +447,10 @@ func typeStr(dt string, slice bool) string {
 // guardValue: guard on a parsed value (or list element) in the constructing function,
 // after construction through a delegated type, or – for parameters – at every call site.
 func (pf *ParserFacts) guardValue(s SlotStore, v ssa.Value, req string) (bool, string) {
+	return pf.guardValueDepth(s, v, req, 0)
+}
+
+func (pf *ParserFacts) guardValueDepth(s SlotStore, v ssa.Value, req string, hdepth int) (bool, string) {
 	acc := acceptedAtoms[req]
 	if ok, why := pf.guardedBy(s, v, acc...); ok {
 		return true, why
@@ -478,6 +482,10 @@ func (pf *ParserFacts) guardValue(s SlotStore, v ssa.Value, req string) (bool, s
 		return true, why
 	}
 	if ok, why := pf.driverGuard(s, acc...); ok {
+		return true, why
+	}
+	// the value is the parameter of a literal handed to a reader together with the test
+	if ok, why := pf.handedOverGuard(s, v, req, hdepth); ok {
 		return true, why
 	}
 	_, why := pf.guardedBy(s, v, acc...)
